@@ -250,7 +250,9 @@ func TestHostPortPrefix(t *testing.T) {
 			}
 		}
 	}
-	addrs := []string{"1.2.3.4", "0.0.0.0", "255.255.255.255", "::", "::1", "1::", "1:2:3:4:5:6:7:8", "::ffff:1.2.3.4", "fe80::1%eth0", "2001:db8::", "10.0.0.0", "01.2.3.4", "1.2.3", "::g", ""}
+	addrs := []string{"1.2.3.4", "0.0.0.0", "255.255.255.255", "::", "::1", "1::", "1:2:3:4:5:6:7:8", "::ffff:1.2.3.4", "fe80::1%eth0", "2001:db8::", "10.0.0.0", "01.2.3.4", "1.2.3", "::g", "",
+		// the longest address texts, and zones of any length (only a bare address may carry one)
+		"ffff:ffff:ffff:ffff:ffff:ffff:255.255.255.255", "fe80:1111:2222:3333:4444:5555:6666:7777%wlp0s20f0u1u2", "ffff:ffff:ffff:ffff:ffff:ffff:255.255.255.255%eth0", "fe80::1%" + strings.Repeat("z", 100)}
 	bits := []string{"", "/", "/0", "/1", "/8", "/24", "/32", "/33", "/64", "/128", "/129", "/-1", "/+8", "/08", "/8/8", "/ 8", "/a", "/%", "//8"}
 	syms := []string{"/", "0", "1", "9", ":", ".", "%", "a", "f", " ", "-", "+"}
 	var texts []string
